@@ -1634,6 +1634,11 @@ func (c *Configuration) buildMinionConfigs(masterHost string) ([]*MinionConfigur
 				continue
 			}
 
+			if holder == minionConfig {
+				// the same minion lists the path more than once: it keeps the path
+				continue
+			}
+
 			warning := fmt.Sprintf("path %s is taken by another resource", p.Path)
 
 			if !chooseObjectMetaWinner(&holder.Ingress.ObjectMeta, &ingress.ObjectMeta) {
